@@ -49,6 +49,21 @@ Key(r) == << r.t, r.c, LowerLabels(r.ow, 1, Len(r.ow)), CanonRdata(r.rd, r.spans
 IsDup(a, b) == Key(a) = Key(b)
 
 -----------------------------------------------------------------------------
+(* Records WITHOUT a wire form (hand-built values the library refuses to pack:  *)
+(* a parameter list that repeats a key ...).  The clause "for records obtained  *)
+(* from the wire" does not speak of them; the clauses on ALL records do: the    *)
+(* relation is symmetric and reflexive and holds between a record and its copy. *)
+(* Such a record is given by the sequence of element numbers its list holds;    *)
+(* ab, ba = the answers for (a, b) and (b, a), self = a with itself and with a  *)
+(* record built the same way, copy = a with its copy.  AMBIG: whether two       *)
+(* different sequences are one record (the order of a list may or may not be    *)
+(* part of the value) is left open; the same sequence is the same record.       *)
+LawOK(la, lb, ab, ba, self, copy) ==
+  /\ ab = ba                       \* symmetric
+  /\ self /\ copy                  \* reflexive; a record and its copy
+  /\ (la = lb => ab)               \* built twice the same way
+
+-----------------------------------------------------------------------------
 (* Dedup: group by <<lower-cased owner labels, class, type, RDATA text exactly>>; the *)
 (* first record of each group survives, in the original order, carrying the     *)
 (* smallest TTL of its group.                                                   *)
